@@ -136,7 +136,7 @@ UNDECIDED = {
     'C17': ["the relational claim (identical output/inputs/errors/final state in all four configurations) is concluded from three facts, not proved as a 2-safety property: the switches are read at exactly the censused sites, each site only appends Warning / Trace records, and no statement or expression writes a switch", "a warning is issued exactly for a never-assigned variable / a missing array: decided per call (exact record counts of evaluate_expression_term and maybe_log_warning_about_undeclared_array_use); with tracing on a statement of a numbered line first appends the trace record naming its line, with tracing off none is appended: decided per statement; that the SEQUENCE of trace records equals the sequence of lines passed through is concluded from these per-statement facts, not proved over runs", "PRINT, user-defined function calls and the command words are proved not to write the switches (only TRACE / NOTRACE do, and they do nothing else)"],
     'C15': [
         "first half (a loaded file lists and runs like the same lines typed in): decided as `the program SourceFileAnalyzer::run / analyze_lines stores is the fold, in file order, of: a numbered line whose text tokenizes to at least one token is stored under its number (replacing an earlier definition); any other line stores nothing` - stated with the same two functions of a line's text (parse_line_number, tokenize from the end of the number) that the prompt path's contract uses (unit interp_api: evaluate_impl stores apply_edit(lines, n, tokens)), so for files whose lines are all numbered, non-empty and tokenizable both paths store the same map. ASSUMED: the analyzer's tokenizer entry point (remaining_tokens_and_ranges) yields the same tokens as the prompt's (remaining_tokens); that the two units' uninterpreted functions are the same functions rests on both calling the same real parse_line_number / Tokenizer. That a numbered line is never taken for a command word at the prompt is not proved. Listing / running the two equal stores identically is the business of C04 / C03",
-        "second half: decided as a per-function invariant (the switches of the interpreter in use equal the command-line options after new, load_source_file, show_interpreter_output, break_interpreter, show_error), not as an equality of two process transcripts; the session loop StdioInterpreter::run_impl is proved on its real text (rustyline / ctrlc / nix linked; the line editor, handler registration, channel and stdin are assumed total): host-call typestate, options in force at the initial RUN and after NEW, all output shown every turn, no unfinished output line left unwritten on a normal end - relative to the printer contracts, of which `no unfinished line stays buffered after print_buffered_output / pop_buffered_output / eprintln` is proved on the real functions (unit stdio_printer; flush_line_buffer = stdout write + clear assumed) and `print / eprintln write once` is assumed; StdioInterpreter::run (editor construction, history file) is outside Verus",
+        "second half: decided as a per-function invariant (the switches of the interpreter in use equal the command-line options after new, load_source_file, show_interpreter_output, break_interpreter, show_error), not as an equality of two process transcripts; the session loop StdioInterpreter::run_impl is proved on its real text (rustyline / ctrlc / nix linked; the line editor, handler registration, channel and stdin are assumed total): host-call typestate, options in force at the initial RUN and after NEW, all output shown every turn, no unfinished output line left unwritten on a normal end - relative to the printer contracts, of which `no unfinished line stays buffered after print_buffered_output / pop_buffered_output / eprintln, nor after print of a text that ends its line` is proved on the real functions (unit stdio_printer; flush_line_buffer = stdout write + clear assumed) and `print / eprintln write once` is assumed; StdioInterpreter::run (editor construction, history file) is outside Verus",
         "--skip-check only suppresses the diagnostics loop (proved: the interpreter and options are the same on both paths); the terminal is specified as a count of writes (every record the interpreter produced is written exactly once by show_interpreter_output, an error at least once; the unfinished last line as a flag the flushing methods clear); the text written (colored, format!) is not specified",
     ],
     'C18': [
